@@ -541,7 +541,7 @@ def gen_call(ch, p, side, allow_close, allow_bad):
         kw = {}
         prio = None
         if ch.chance(64):
-            prio = (ch.int(1, 256), ch.pick([0, 1, 3, sid + 2]), ch.bool())
+            prio = (ch.pick([1, 256, 16, ch.int(1, 256), ch.int(1, 256)]), ch.pick([0, 1, 3, sid + 2]), ch.bool())
             kw = {'priority_weight': prio[0], 'priority_depends_on': prio[1], 'priority_exclusive': prio[2]}
         verdict, what = m.send_headers_verdict(sid, 'final', es)
         if verdict != M.PERMIT and what not in INERT_REFUSALS:
@@ -713,7 +713,7 @@ def gen_call(ch, p, side, allow_close, allow_bad):
         return
     if op == 'prio':
         sid = ch.pick([1, 3, 5, 7, 101])
-        w, d, e = ch.int(1, 256), ch.pick([0, 1, 3, 9]), ch.bool()
+        w, d, e = ch.pick([1, 256, 16, ch.int(1, 256), ch.int(1, 256)]), ch.pick([0, 1, 3, 9]), ch.bool()
         if d == sid:
             d = 0
 
